@@ -17,9 +17,8 @@ open GlueVerif.C04
 #print axioms GlueVerif.C04.element_state_view
 #print axioms GlueVerif.C04.state_view
 #print axioms GlueVerif.C04.state_view_values
-#print axioms GlueVerif.C04.state_view_partial
-#print axioms GlueVerif.C04.chunked_roi_scalar_view_raises
-#print axioms GlueVerif.C04.loop1d_scalar_view_raises
+#print axioms GlueVerif.C04.chunked_roi_scalar_view_pinned_raises
+#print axioms GlueVerif.C04.loop1d_scalar_view_pinned_raises
 #print axioms GlueVerif.C04.indexed_get
 #print axioms GlueVerif.C04.indexed_pixel
 #print axioms GlueVerif.C04.indexed_mask
